@@ -83,6 +83,10 @@ def alias_cases():
         ["ld", "dst"], ["dst/real/f", "real/f"], True)
     add("bystander-named-like-toplevel-dirlink-target-T", base + [D("real"), F("real/f", 30, 21), L("ld", "real"), D("dst"), D("dst/real"), F("dst/real/f", 40, 22)],
         ["-T", "ld", "dst/newlink"], ["dst/real/f", "real/f"], True)
+    # --glob expands the sources only: a destination whose name contains pattern characters is a plain name
+    add("glob-destination-with-brackets", base + [F("a.txt", 20, 31), F("b.txt", 30, 32), D("out[1]")], ["--glob", "a.txt", "b.txt", "out[1]"], ["a.txt", "b.txt"])
+    add("glob-destination-matches-bystander", base + [F("src.txt", 20, 33), F("dst1", 30, 34)], ["--glob", "src.txt", "dst[1]"], ["src.txt", "dst1"])
+    add("glob-destination-star", base + [F("one.txt", 20, 35), F("dst-keep-me", 30, 36), D("dst*")], ["--glob", "one.*", "dst*"], ["one.txt", "dst-keep-me"])
     add("link-dot-slash", base + [F("f"), L("l", "f")], ["l", "./l"], ["l", "f"])
     add("link-in-T-respelled-dir", [D("d"), F("d/f"), L("d/l", "f"), D("other"), F("other/keep", 99, 13)], ["-T", "d", "./d"], ["d/f", "d/l"], True)
     add("two-sources-one-alias", base + [F("f"), D("dst"), L("dst/f", "../f")], ["other/keep", "f", "dst"], ["f", "other/keep"])
